@@ -44,6 +44,10 @@ Definition rd32 (a b c d : N) : N := ((a * 256 + b) * 256 + c) * 256 + d.
 Definition takeN {A} (n : N) (l : list A) : list A := firstn (N.to_nat n) l.
 Definition dropN {A} (n : N) (l : list A) : list A := skipn (N.to_nat n) l.
 
+(** the standard library's [rev] is quadratic; the model reverses its accumulators with this one (= [rev], see
+    Proofs/BytesLemmas.v [frev_rev]) so that programs of tens of thousands of statements stay executable *)
+Definition frev {A} (l : list A) : list A := rev_append l [].
+
 Definition zeros (n : nat) : bytes := repeat 0 n.
 
 Definition wrap8 (x : N) : N := x mod 256.
